@@ -9,7 +9,7 @@ FILES = ["mess", "intd", "todo", "info", "local", "remote", "bounce"]
 SPLIT = 23
 
 def qpath(home, d, n):
-    if d in ("intd", "todo"): return os.path.join(home, "queue", d, str(n))
+    if d in ("intd", "todo", "bounce"): return os.path.join(home, "queue", d, str(n))
     return os.path.join(home, "queue", d, str(n % SPLIT), str(n))
 
 def listing(home):
@@ -18,7 +18,7 @@ def listing(home):
     q = os.path.join(home, "queue")
     for d in FILES:
         base = os.path.join(q, d)
-        subs = [base] if d in ("intd", "todo") else [os.path.join(base, s) for s in os.listdir(base)]
+        subs = [base] if d in ("intd", "todo", "bounce") else [os.path.join(base, s) for s in os.listdir(base)]      # bounce/ is not split
         for sd in subs:
             try: names = os.listdir(sd)
             except OSError: continue
